@@ -14,17 +14,13 @@ from engine.symx import (SymBool, SymInt, SymFloat, f64, i64, ModelGap, ite, con
 
 nan = f64('nan')
 inf = f64('inf')
-pi = f64(math.pi)
+PI_PROVIDER = None    # harness hook: symbolic pi (C17)
 newaxis = None
 bool_ = bool
 float64 = float
 int64 = int
 
 _WRITE_LOG = None   # optional list collecting in-place writes (C15)
-
-
-def _pi_value():
-    return pi
 
 
 class errstate:
@@ -1518,4 +1514,6 @@ isin = in1d
 
 
 def __getattr__(name):
+    if name == 'pi':
+        return PI_PROVIDER() if PI_PROVIDER is not None else f64(math.pi)
     raise ModelGap("numpy.%s is not modelled" % name)
